@@ -191,10 +191,23 @@ class Poison(object):
 class AllocFault(object):
     """failing allocation: once armed, the n-th call of an allocating NumPy routine made from an aotools frame raises
     MemoryError (one shot). Calls made by NumPy itself or by anybody else are never touched."""
-    NAMES = ("append", "concatenate", "vstack", "hstack", "zeros", "empty", "zeros_like", "empty_like", "roll", "copy", "array")
+    NAMES = ("append", "concatenate", "vstack", "hstack", "zeros", "empty", "zeros_like", "empty_like", "roll", "copy", "array",
+             "fft.fft2", "fft.ifft2", "fft.fftshift", "fft.ifftshift")
+
+    @staticmethod
+    def _owner(name):
+        return (numpy.fft, name[4:]) if name.startswith("fft.") else (numpy, name)
+
+    def _get(self, name):
+        o, a = self._owner(name)
+        return getattr(o, a)
+
+    def _set(self, name, f):
+        o, a = self._owner(name)
+        setattr(o, a, f)
 
     def __init__(self):
-        self.real = dict((n, getattr(numpy, n)) for n in self.NAMES)
+        self.real = dict((n, self._get(n)) for n in self.NAMES)
         self.countdown = None
         self.fired = 0
         self.seen = 0
@@ -217,7 +230,7 @@ class AllocFault(object):
                         raise MemoryError("injected: Unable to allocate memory for an array (numpy.%s)" % name)
                     fault.countdown -= 1
             return real(*a, **k)
-        f.__name__ = name
+        f.__name__ = name.split(".")[-1]
         return f
 
     def arm(self, nth):
@@ -227,13 +240,13 @@ class AllocFault(object):
         self.countdown = None
 
     def install(self):
-        self.real = dict((n, getattr(numpy, n)) for n in self.NAMES)       # whatever is there now (possibly Poison's wrappers)
+        self.real = dict((n, self._get(n)) for n in self.NAMES)       # whatever is there now (possibly Poison's wrappers)
         for n in self.NAMES:
-            setattr(numpy, n, self._wrap(n))
+            self._set(n, self._wrap(n))
 
     def uninstall(self):
         for n, f in self.real.items():
-            setattr(numpy, n, f)
+            self._set(n, f)
 
 
 # ---- ambient (global) RNG state -----------------------------------------------------------------------
